@@ -131,6 +131,18 @@ def stepInt (s : St) (ws : List String) : St × String :=
       | .ok g => (s, s!"g {g}")
       | .error e => (s, exc e)
     | none => (s, exc .unknown_handle)
+  | ["getr", k, n, ss] => match k.toNat?.bind s.var?, n.toNat?, ss.toNat? with
+    | some x, some n, some ss =>
+      if ss = 0 then (s, "bad-op") else
+      match s.getRange x.idx n ss with
+      | .ok gs => (s, "G" ++ String.join (gs.map fun g => s!" {g}"))
+      | .error e => (s, exc e)
+    | _, _, _ => (s, exc .unknown_handle)
+  | "setr" :: k :: vs => match k.toNat?.bind s.var?, vs.mapM String.toInt? with
+    | some x, some vs => match s.setRange x.idx vs with
+      | (s', none) => (s', "ok")
+      | (s', some e) => (s', exc e)
+    | _, _ => (s, exc .unknown_handle)
   | ["fwd"] => match s.forward with | .ok s' => (s', "ok") | .error e => (s, exc e)
   | ["rev"] => match s.reverse with | .ok s' => (s', "ok") | .error e => (s, exc e)
   | ["jac", m, "ptr", dO, iO, nc] =>
